@@ -99,6 +99,7 @@ type inlineFrame struct {
 }
 
 type deferRec struct {
+	lit  *ast.FuncLit // deferred closure (executed in place at exit)
 	call *ast.CallExpr
 	fn   Val
 	recv *Val
@@ -109,6 +110,11 @@ type deferRec struct {
 type retRec struct {
 	st   *State
 	vals []Val
+	// abrupt exit by a panic (see chan.go): recovered is set once a deferred closure's recover() stopped it
+	panicking bool
+	recovered bool
+	what      string
+	node      ast.Node
 }
 
 type loopFrame struct {
@@ -142,6 +148,9 @@ type FnCtx struct {
 	loopN    int
 	noSafety bool
 	objTy    bool // record allocations in the object-type map (the contract uses live())
+	stepN          int
+	deferPanicking bool // executing a deferred closure of a panicking exit, recover() not yet called
+	deferRecovered bool
 	monAcqs   map[string]*monAcq // monitor acquisitions by mutex
 	lastAcq   *monAcq
 	Monitored map[string]bool // monitors whose rely/guarantee rule was applied (evidence)
